@@ -183,8 +183,10 @@ impl<E> CQueue<E> {
         if handle.time >= self.t_current {
             if handle.time == self.t_current {
                 if let Some(i) = self.zero_event_bucket.iter().position(|v| v.2 == handle.id) {
-                    self.zero_event_bucket.remove(i);
+                    // count first, drop afterwards: the destructor of the payload may unwind
+                    let removed = self.zero_event_bucket.remove(i);
                     self.len -= 1;
+                    drop(removed);
                     return;
                 }
                 // An event for the current time, that was added before the
@@ -197,8 +199,14 @@ impl<E> CQueue<E> {
             let index: usize = index as usize;
             let index = index % self.n;
 
-            if self.buckets[index].cancel(&handle) {
-                self.len -= 1;
+            // The bucket drops the event it removes, and the destructor of the
+            // payload may unwind: the event is counted as gone before that.
+            if self.len == 0 {
+                return;
+            }
+            self.len -= 1;
+            if !self.buckets[index].cancel(&handle) {
+                self.len += 1;
             }
         }
     }
